@@ -221,7 +221,9 @@ pub fn check_case(c: &Case, st: &mut Stats) -> Option<usize> {
                 return Some(0);
             }
             // b: the first is a least-cost route (costs independent of the previous edge only in the distance world)
-            if !c.speed_world {
+            // (A* on non-metric networks is not claimed to be optimal, see C02)
+            let under_dijkstra = matches!(&c.algo, Algo::SingleVia { under, .. } | Algo::Yens { under, .. } if **under == Algo::Dijkstra);
+            if !c.speed_world && under_dijkstra {
                 let cost_of = |e: usize| Some(w.ref_edge_cost(None, e));
                 let bf = bellman_ford(net, 0, true, &cost_of);
                 let got = route_cost(&routes[0]);
